@@ -7,9 +7,9 @@ whose raw start is within 32 of `stop_` gets `start = 0` and sieves `[0, 2^64-1]
 `(dist - 1) % threadDist < 32`.
 * `parallel_count_total_gap`: the tiling covers for EVERY `stop ≤ 2^64-1` whenever the last task is longer than 32.
 * **`parallel_count_total_umax`**: at `stop = 2^64-1` (`isqrt(stop) = 4294967295`, `sqrt_umax`) the last task IS longer than 32 for every thread count
-  `1 ≤ numThreads ≤ 27 709 465` — `ParallelSieve::setNumThreads` clamps to `[1, std::thread::hardware_concurrency()]`, so this is every machine with fewer
+  `1 ≤ numThreads ≤ 27 709 467` — `ParallelSieve::setNumThreads` clamps to `[1, std::thread::hardware_concurrency()]`, so this is every machine with fewer
   than 27.7 million hardware threads ((S) hypothesis).  `parallel_count_total_all`, `parallel_count_primes_closed_all` (`_50`): every `stop ≤ 2^64-1`.
-* **`parallel_count_wrap_witness`, `parallel_count_wrap_miscount`**: the bound is needed and sharp up to 3: with `numThreads_ = 27 709 468`,
+* **`parallel_count_wrap_witness`, `parallel_count_wrap_miscount`**: the bound is needed and SHARP: with `numThreads_ = 27 709 468`,
   `start = 18422941821390992413`, `stop = 2^64-1` the last of the 27 709 468 tasks is `[0, 2^64-1]` and the model's count is
   `π-count[start, stop] + π-count[0, 2^64-1]`.  The REAL `idealNumThreads / getThreadDistance / align` (harness op `psintervals`, which writes `numThreads_`
   directly) return the same intervals: `… 18446744072850558093:18446744073709551615 0:18446744073709551615`.  Not reachable through the public API
@@ -37,15 +37,15 @@ theorem parallel_count_total_gap (cnt : ℕ → ℕ → ℕ)
 /-- `isqrt(2^64-1)`, the value `idealNumThreads` / `getThreadDistance` see at `stop = 2^64-1` -/
 theorem isqrt_umax : Nat.sqrt umax = 4294967295 := sqrt_umax
 
-/-- the last task is longer than 32 at `stop = 2^64-1` for every thread count up to 27 709 465 -/
-theorem last_task_longer_than_32 (dist t : ℕ) (hd : dist ≤ umax) (ht2 : 2 ≤ t) (ht : t ≤ 27709465) (htd : t * 858993459 ≤ dist) :
+/-- the last task is longer than 32 at `stop = 2^64-1` for every thread count up to 27 709 467 -/
+theorem last_task_longer_than_32 (dist t : ℕ) (hd : dist ≤ umax) (ht2 : 2 ≤ t) (ht : t ≤ 27709467) (htd : t * 858993459 ≤ dist) :
     32 ≤ (dist - 1) % getThreadDistance 4294967295 dist t := threadDist_gap dist t hd ht2 ht htd
 
-/-- **`parallel_count_total` at `stop = 2^64-1`**: every additive count, every `start`, `1 ≤ numThreads ≤ 27709465` -/
+/-- **`parallel_count_total` at `stop = 2^64-1`**: every additive count, every `start`, `1 ≤ numThreads ≤ 27709467` -/
 theorem parallel_count_total_umax (cnt : ℕ → ℕ → ℕ)
     (hempty : ∀ a b, b < a → cnt a b = 0)
     (hsplit : ∀ a m b, a ≤ m + 1 → m ≤ b → cnt a m + cnt (m + 1) b = cnt a b)
-    (start numThreads : ℕ) (hstart : start ≤ umax) (ht1 : 1 ≤ numThreads) (ht : numThreads ≤ 27709465) :
+    (start numThreads : ℕ) (hstart : start ≤ umax) (ht1 : 1 ≤ numThreads) (ht : numThreads ≤ 27709467) :
     parCount cnt (Nat.sqrt umax) start umax numThreads = cnt start umax := by
   rw [sqrt_umax]
   exact parCount_total_umax cnt ⟨hempty, hsplit⟩ start numThreads hstart ht1 ht
@@ -54,14 +54,14 @@ theorem parallel_count_total_umax (cnt : ℕ → ℕ → ℕ)
 theorem parallel_count_total_all (cnt : ℕ → ℕ → ℕ)
     (hempty : ∀ a b, b < a → cnt a b = 0)
     (hsplit : ∀ a m b, a ≤ m + 1 → m ≤ b → cnt a m + cnt (m + 1) b = cnt a b)
-    (isq start stop numThreads : ℕ) (hstop : stop ≤ umax) (ht1 : 1 ≤ numThreads) (ht : numThreads ≤ 27709465)
+    (isq start stop numThreads : ℕ) (hstop : stop ≤ umax) (ht1 : 1 ≤ numThreads) (ht : numThreads ≤ 27709467)
     (hisq : stop = umax → isq = Nat.sqrt stop) :
     parCount cnt isq start stop numThreads = cnt start stop :=
   parCount_total_all cnt ⟨hempty, hsplit⟩ isq start stop numThreads hstop ht1 ht (fun h => by rw [hisq h, h, sqrt_umax])
 
 /-- **`count_primes(start, stop)` over the real counting core, EVERY `stop ≤ 2^64-1`** (WP close2's `parallel_count_primes_closed` without `stop < 2^64-1`) -/
 theorem parallel_count_primes_closed_all (l1raw kib : ℕ) (hfl : CountFloatOk l1raw kib) (hk : 16 ≤ kib) (hk2 : kib ≤ 8192)
-    (isq start stop numThreads : ℕ) (hstop : stop ≤ umax) (ht1 : 1 ≤ numThreads) (ht : numThreads ≤ 27709465)
+    (isq start stop numThreads : ℕ) (hstop : stop ≤ umax) (ht1 : 1 ≤ numThreads) (ht : numThreads ≤ 27709467)
     (hisq : stop = umax → isq = Nat.sqrt stop) :
     parCount (sieveCount (countCoreTo l1raw kib (2 ^ 64))) isq start stop numThreads = primeCnt start stop := by
   have hc := countCore64_coreCounts l1raw kib hfl hk hk2
@@ -70,7 +70,7 @@ theorem parallel_count_primes_closed_all (l1raw kib : ℕ) (hfl : CountFloatOk l
 
 /-- … with the real counting core used below 2^50: no float hypothesis -/
 theorem parallel_count_primes_closed_all_50 (l1raw kib : ℕ) (hk : 16 ≤ kib) (hk2 : kib ≤ 8192)
-    (isq start stop numThreads : ℕ) (hstop : stop ≤ umax) (ht1 : 1 ≤ numThreads) (ht : numThreads ≤ 27709465)
+    (isq start stop numThreads : ℕ) (hstop : stop ≤ umax) (ht1 : 1 ≤ numThreads) (ht : numThreads ≤ 27709467)
     (hisq : stop = umax → isq = Nat.sqrt stop) :
     parCount (sieveCount (countCoreTo l1raw kib (2 ^ 50))) isq start stop numThreads = primeCnt start stop := by
   have hc := countCore50_coreCounts l1raw kib hk hk2
